@@ -318,10 +318,28 @@ def execute(op: dict, ldr, T, seed: int = 0):
                 grp = grp.tail(gop["n"])
             elif gop["name"] == "sample":
                 grp = grp.sample(gop["n"], seed=seed)
+            elif gop["name"] in ("sample_noseed", "sample_noseed_align"):
+                grp = grp.sample(gop["n"])          # seed=None: the derived group must still be ONE fixed selection
+                if gop["name"] == "sample_noseed_align":
+                    grp = grp.align(np.ones(BOX, np.float32), max_shifts=1.0, alignment_model=_probe_cls())
+            applied = None
+            if gop["name"] == "apply":
+                def centre(x):
+                    return float(np.asarray(x)[1, 1, 1])
+
+                def centre_far(x):
+                    return float(np.asarray(x)[1, 1, 1]) + 5.0e6
+
+                applied = grp.apply([centre, centre_far])
             for store in (groups, groups2):
                 for key, sub in grp:
                     k = int(key) if op["col"] == "img" else tables._val_to_spec(op["col"], key)
-                    if gop["name"] == "align":
+                    if applied is not None:
+                        fr = applied[key]
+                        o = [decode(v) for v in fr["centre"].to_list()]
+                        if len(fr) == len(o) and not np.allclose(fr["centre_far"].to_numpy() - fr["centre"].to_numpy(), 5.0e6):
+                            o = [dict(img=-3, uid=-3)] * len(o)          # the second function's column does not belong to these rows
+                    elif gop["name"] in ("align", "sample_noseed_align"):
                         o = [decode(v) for v in sub.molecules.features["score"].to_list()]
                     else:
                         o = observe(sub, "asnumpy")[0] if sub.count() > 0 else []
